@@ -385,6 +385,9 @@ func generateMore(suite string, seed uint64, i int, r *rng, id string, g gp) *Ca
 			truth = []any{fs(r1)}
 		case 3: // quadratic: leading coefficient exactly 0
 			r1, r2 := rt(), rt()
+			if r.chance(1, 4) {
+				r2 = r1 // double root: discriminant exactly 0
+			}
 			co = []float64{a * r1 * r2, -a * (r1 + r2), a, 0}
 			truth = []any{fs(r1), fs(r2)}
 		case 4: // quadratic without real roots
